@@ -204,6 +204,18 @@ def parse_nat_list(out, marker=None):
     return [int(x) for x in re.findall(r'\d+', body)]
 
 
+def storage_of(lab):
+    """The Storage object of a Lab (held in a private attribute)."""
+    st = getattr(lab, '_storage', None)
+    if st is not None:
+        return st
+    from labtech.types import Storage
+    for v in vars(lab).values():
+        if isinstance(v, Storage):
+            return v
+    raise AttributeError('no Storage found on the Lab object')
+
+
 def decode_strs(out):
     """Coq prints a [str] as a list of code points: turn every such list in `out` back into a quoted string."""
     def one(m):
